@@ -11,6 +11,13 @@ TEXT = {
                 "(the socket branch is exercised separately over loopback TCP). Task termination on a fatal receive error (select! arm) is checked with the handler properties.",
         "technique": "Lean 4 proof (prefix-stability lemmas + induction over read chunks; refinement to greedy decodeAll) + differential correspondence",
     },
+    "C13": {
+        "level": "Kernel-checked for all status vectors, peer sets, advertised sets and ALL shuffle outcomes (any permutation of the candidate list): a pick is "
+                 "eligible and of minimal availability among eligible pieces (T1); none is picked iff nothing is eligible (T2); END_GAME_LIMIT = 10 from the "
+                 "generated constant. The implementation's random answers (8 per state) are checked for membership in the proved admissible set.",
+        "note": KERNEL + "the model's own insertion sort stands for slice::sort_by (only sortedness+permutation are used in the proof); shuffle = arbitrary permutation.",
+        "technique": "Lean 4 proof (decision logic over all permutations; sortedness + permutation lemmas) + admissibility check of the implementation's answers",
+    },
     "C07": {
         "level": "Kernel-checked theorems for all field values and all payloads: encode = BEP3 layout (T1), parse(encode m ++ rest) = (m, |encode m|) (T2), "
                  "be32 inverse (T3), bitfield round trip / byte count / bit position for every piece count (T4), id table (T5). The model is tied to the Rust "
